@@ -46,6 +46,30 @@ fn sweep_case(keylen: usize, bloom: Bloom, lazy: bool, len: Option<u32>) -> Case
     Case { cfg: Cfg { keylen, bloom, allow_dup: true, ..Cfg::default() }, ops }
 }
 
+/// Many blobs (ids with one, two and three digits): every blob holds a record of one shared key with the same timestamp
+/// (the most recent blob must win the tie after any restart) plus a record of its own key
+fn many_blobs_case(nblobs: usize, lazy: bool, remove_all_idx: bool, keylen: usize) -> Case {
+    let mut ops = vec![];
+    for b in 0..nblobs {
+        ops.push(Op::Write { key: 0, ts: 2, meta: 0, vlen: 3 + (b % 50) as u32, fill: 0 });
+        ops.push(Op::Write { key: 1 + (b % 4) as u8, ts: 1, meta: 0, vlen: 1 + (b % 7) as u32, fill: 0 });
+        if b + 1 < nblobs {
+            ops.push(Op::Switch);
+        }
+    }
+    ops.push(Op::WaitIdle);
+    ops.push(Op::Reopen { lazy, remove_all_idx, damage: vec![] });
+    if lazy {
+        ops.push(Op::Restore);
+    }
+    ops.push(Op::Write { key: 2, ts: 1, meta: 0, vlen: 9, fill: 0 });
+    ops.push(Op::Write { key: 0, ts: 2, meta: 0, vlen: 99, fill: 0 });
+    ops.push(Op::Switch);
+    ops.push(Op::Write { key: 0, ts: 2, meta: 0, vlen: 100, fill: 0 });
+    ops.push(Op::Reopen { lazy: !lazy, remove_all_idx: false, damage: vec![] });
+    Case { cfg: Cfg { keylen, bloom: Bloom::None, allow_dup: true, defer_ms: (2, 5), group: 3, ..Cfg::default() }, ops }
+}
+
 /// Length of t.0.index produced by `sweep_case`
 fn sweep_index_len(ctx: &RunCtx, keylen: usize, bloom: &Bloom) -> u64 {
     let dir = ctx.scratch.join(format!("sweep-probe-{}", keylen));
@@ -101,10 +125,24 @@ pub fn run(ctx: &RunCtx) -> PropResult {
     sp.gen.nkeys = 5;
     let runf = |c: &Case, d: &std::path::Path| run_history(c, d, &sp, &findings);
     run_enumerated(ctx, "history-truncsweep", cases, runf, &sample_case, &mut report);
+    // directories with 10+ and 100+ blobs: ids of different digit counts, restarts eager / lazy, with and without index files
+    let mut many = vec![];
+    for nblobs in if ctx.tier == Tier::Thorough { vec![9usize, 10, 11, 12, 21, 100, 101, 102, 120] } else { vec![11usize, 12, 102] } {
+        for lazy in [false, true] {
+            for remove in [false, true] {
+                many.push(many_blobs_case(nblobs, lazy, remove, if nblobs % 2 == 0 { 8 } else { 33 }));
+            }
+        }
+    }
+    let mut mp = profile();
+    mp.phase = "history-manyblobs";
+    mp.gen.nkeys = 5;
+    let runf = |c: &Case, d: &std::path::Path| run_history(c, d, &mp, &findings);
+    run_enumerated(ctx, "history-manyblobs", many, runf, &sample_case, &mut report);
     PropResult {
         report,
         level: "fault_enumeration",
-        rule: "proptest histories (as C02, plus close/create/restore of the active blob, filter off-load at every level, free_excess_resources and fsyncdata, so that what a restart reads back from index files - filters and their offsets included - is exercised through every later access path) with 1-8 close+reopen rounds (eager or lazy init); before each reopen a generated damage list is applied to the index files present: remove, truncate to a length drawn from each layout class (0, inside header, exactly header, inside filter section, inside tree meta, node region, leaf region, len-1, len - one record header, anywhere), written-flag cleared, header zeroed, all removed; stale indexes arise naturally from deletes into already-indexed blobs whose re-dump (60 s deferred in half of the configs) has not happened at close. Oracle after EVERY step: all read/contains/read_all*/read_with answers and all counts equal the reference model (hence equal before and after the restart), next_blob_id as implied by the files, every blob file id known to the model. Non-trivial = a reopen happened after at least one index file was damaged/removed or was stale. distinct = FNV hash of the serialized case.".into(),
+        rule: "proptest histories (as C02, plus close/create/restore of the active blob, filter off-load at every level, free_excess_resources and fsyncdata, so that what a restart reads back from index files - filters and their offsets included - is exercised through every later access path) with 1-8 close+reopen rounds (eager or lazy init); before each reopen a generated damage list is applied to the index files present: remove, truncate to a length drawn from each layout class (0, inside header, exactly header, inside filter section, inside tree meta, node region, leaf region, len-1, len - one record header, anywhere), written-flag cleared, header zeroed, all removed; stale indexes arise naturally from deletes into already-indexed blobs whose re-dump (60 s deferred in half of the configs) has not happened at close. Oracle after EVERY step: all read/contains/read_all*/read_with answers and all counts equal the reference model (hence equal before and after the restart), next_blob_id as implied by the files, every blob file id known to the model. An enumerated phase (history-manyblobs) builds directories of 11 / 12 / 102 (thorough: 9-120) blobs in which every blob holds an equal-timestamp record of one shared key, restarts them eagerly and lazily (then restore), with and without index files, writes again and restarts once more. Non-trivial = a reopen happened after at least one index file was damaged/removed or was stale. distinct = FNV hash of the serialized case.".into(),
         assumptions: common_assumptions(),
     }
 }
